@@ -7,8 +7,11 @@ EXPL = ("Decides the history clause: typestate Zero/Unknown over the 64xu64 occu
         "accumulate-first function (init_from_partial and whoever passes the requirement on) the location is Zero on every path - "
         "cleared by a dominating clear on the same location or fresh from an all-zero constructor; functions that require Zero at "
         "entry are not exported (SA-VIS); the views pair mask K with length K and representation_mut returns the mask itself. "
-        "Lengths and block size are re-defined by init_from_partial from the like-named fields of the source (SA-FIELDS). NOT "
-        "decided: that the accumulated bits equal the string (bit arithmetic).")
+        "Lengths and block size are re-defined by init_from_partial from the like-named fields of the source (SA-FIELDS). SA-FORMULA / "
+        "SA-GUARD, the representation clause as code shape: init_from_partial performs exactly mask[symbol] |= 1 << position for every "
+        "(position, symbol) of the whole input and sets the length to the input's length; is_equiv_internal answers non-false only under "
+        "`self.len() == other.len()` and then as the conjunction over every (position, symbol) of `other` of mask[symbol] & (1 << position) != 0 "
+        "on self.representation(). NOT decided: is_valid / is_normalized of a position array as bit arithmetic (popcount and run tests).")
 
 
 def run(ctx):
@@ -19,6 +22,8 @@ def run(ctx):
         ctx.guard("C17", "typestate", lambda: typestate.clear_before_accumulate(ctx, prog))
         ctx.guard("C17", "views", lambda: typestate.views_are_like_indexed(ctx, prog))
         ctx.guard("C17", "lenmask", lambda: typestate.length_follows_masks(ctx, prog))
+        ctx.guard("C17", "equiv", lambda: typestate.equiv_exact(ctx, prog))
+        ctx.guard("C17", "accumulate", lambda: typestate.accumulate_exact(ctx, prog))
         ctx.guard("C17", "like", lambda: fields.like_index(ctx, prog, scope=r"internals::compare::|<internals::compare::", floor=3))
         ctx.guard("C17", "complete", lambda: fields.dest_complete(ctx, prog, scope=r"internals::compare::|<internals::compare::", floor=1))
         ctx.guard("C17", "vis", lambda: vis.representation_private(ctx, prog))
